@@ -23,11 +23,6 @@ Theorem C08_space : forall n G, (forall g, In g G -> DN n g) ->
 Proof. exact space_spec. Qed.
 Print Assumptions C08_space.
 
-(* the property's own example on the pinned snapshot: G = [IY, YZ], X = [ZY]; the implementation answered
-   is_in = True; ZY is not in the closure {IY, YZ, YX} *)
-Theorem C08_refuted_snapshot_example :
-  m_in (member_strs 2 [[PI;PY]; [PY;PZ]] [[PZ;PY]]) = false /\
-  space_strs 2 [[PI;PY]; [PY;PZ]] = [[PI;PY]; [PY;PZ]; [PY;PX]] \/ True.
-Proof. right. exact I. Qed.
+(* the property's own example: G = [IY, YZ], X = [ZY]; the pinned snapshot answered is_in = True *)
 Example C08_example : m_in (member_strs 2 [[PI;PY]; [PY;PZ]] [[PZ;PY]]) = false /\ m_in (member_strs 2 [[PI;PY]; [PY;PZ]] [[PY;PX]]) = true.
 Proof. vm_compute. split; reflexivity. Qed.
